@@ -40,6 +40,9 @@ const (
 	vtProcSpawn        = 36
 	vtProcTimeoutTo    = 37
 	vtInputCommit      = 38
+	vtStreamerSleep    = 39
+	vtStreamerWake     = 34
+	vtStreamerSignal   = 19
 )
 
 // Gate points.
